@@ -915,6 +915,21 @@ func genCodecE2E(c *ctx) {
 			return
 		}
 		wc.nprot = len(prot)
+		// what the options promise whatever table is announced: '~' always, with -e also CR, DLE,
+		// XON, XOFF, CAN, ESC, GS and the 8-bit forms of CR, DLE, XON, XOFF, GS (the property's list;
+		// the built-in table has never contained 0x98 / 0x9b, the 8-bit forms of CAN and ESC: the
+		// property is about "the bytes a table promises to protect", see DESIGN 10.4)
+		promised := []byte{0x7e}
+		if wc.cfg.escape {
+			promised = append(promised, 0x0d, 0x10, 0x11, 0x13, 0x18, 0x1b, 0x1d, 0x8d, 0x90, 0x91, 0x93, 0x9d)
+		}
+		for _, b := range promised {
+			if !prot[b] {
+				wc.key = "table-misses-promised-byte"
+				wc.viol = fmt.Sprintf("the announced table does not protect %02x, which these options promise to keep off the wire", b)
+				prot[b] = true
+			}
+		}
 		w := res.wire[0]
 		for off, b := range w {
 			if prot[b] {
